@@ -850,7 +850,26 @@ def r62(orig, rule):
     return 'match %s { Some(%s) => { %s; let __r = Some(%s); __r } None => { None } }' % (e, x, st, x)
 
 
+def r63(orig, rule):
+    # symbols: A.OP(&B).collect(),   (OP in intersection / difference / union of bit_set::BitSet)   ->   symbols: bitset_OP(&A, &B),
+    # (the adapter + collect pair is the set operation; the stub bitset_OP carries exactly that contract)
+    s = norm(orig)
+    m = _m(r'symbols : (.+) \. (intersection|difference|union) \( & (.+) \) \. collect \( \) ,', s)
+    a, op, b = m.groups()
+    return 'symbols: bitset_%s(&%s, &%s),' % (op, a, b)
+
+
+def r64(orig, rule):
+    # E.iter().max().map(|X| X as u8)   (tail; E a BitSet)   ->   match bitset_max(&E) { Some(X) => { let __r = Some(X as u8); __r } None => { None } }
+    s = norm(orig)
+    m = _m(r'(.+) \. iter \( \) \. max \( \) \. map \( \| (%s) \| (%s) as u8 \)' % (ID, ID), s)
+    e, x, x2 = m.groups()
+    assert x == x2
+    return 'match bitset_max(&%s) { Some(%s) => { let __r = Some(%s as u8); __r } None => { None } }' % (e, x, x)
+
+
 GENERATORS = {
+    'R63': r63, 'R64': r64,
     'R62': r62,
     'R61': r61,
     'RDBG': rdbg,
